@@ -49,20 +49,15 @@ where
             warn!("TCP connection closed?");
             return Ok(BlockRet::EOF);
         }
-        let mut v = Vec::with_capacity(n / size + 1);
-
-        let mut steal = 0;
-        if !self.buf.is_empty() {
-            steal = size - self.buf.len();
-            self.buf.extend(&buffer[0..steal]);
-            v.push(T::parse(&self.buf)?);
-            self.buf.clear();
+        // Add what was read to any partial sample left over from last time,
+        // and parse as many whole samples as there now are.
+        self.buf.extend(&buffer[..n]);
+        let whole = self.buf.len() - self.buf.len() % size;
+        let mut v = Vec::with_capacity(whole / size);
+        for chunk in self.buf[..whole].chunks_exact(size) {
+            v.push(T::parse(chunk)?);
         }
-        let remaining = (n - steal) % size;
-        for pos in (steal..(n - remaining)).step_by(size) {
-            v.push(T::parse(&buffer[pos..pos + size])?);
-        }
-        self.buf.extend(&buffer[n - remaining..n]);
+        self.buf.drain(..whole);
         let n = v.len();
         o.fill_from_iter(v);
         o.produce(n, &[]);
